@@ -166,7 +166,8 @@ theorem Closed.next {cfg : Cfg} {t : TCfg} (ht : t.Ok) {fresh : Bytes} {ref : Li
   rw [hn] at c3
   obtain ⟨r', oi, B, B', rest, hx, hr, hl⟩ := refFrames_succ c3
   have hadv := advanceFrame_spec cfg r hI c1 hrem
-  unfold nextFrameBuf at hx
+  rw [nextFrameBuf_none cfg t r _ c2] at hx
+  unfold nextFrameBuf0 at hx
   rw [if_neg hrem, c1] at hx
   simp only [if_true] at hx
   cases hy : readUntilImageData cfg t r with
